@@ -53,6 +53,7 @@ func CreateEvaluator(expression string, opts ...Option) (*Evaluator, error) {
 		unknownVal:              parsedOpts.withUnknown,
 		expression:              expression,
 	}
+	compileRegexps(eval.ast)
 
 	return eval, nil
 }
